@@ -163,3 +163,12 @@ CHECKS["C17"] = _c(
     "Trusted: the snapshot walker (std::fs). Reads are observable only through responses (the strace-based syscall monitor sketched in DESIGN.md is not part of this revision). Hostile bucket names never reach the backend (adapter validation, C12).",
     "DESIGN.md 3/C17",
 )
+
+CHECKS["C18"] = _c(
+    "exploration",
+    "runtime monitoring against an executable reference model: generated operation histories are executed step by step through aws-sdk-s3 against s3s-fs (behind S3Service::call, two identities) and against a small in-memory object store; the clauses the statement names are compared after every step",
+    "harness (store driver with aws-sdk-s3 as client)",
+    "Hundreds (quick) to thousands (thorough) of histories of 20-60 steps over 1-3 buckets and six keys chosen so that overwrites, deletes, copies (incl. self-copies) and multipart completions collide: put with / without metadata, get, head, ranged get in every RFC 9110 form, delete, copy, listings with prefixes, bucket deletion and re-creation, multipart uploads with parts in any order, parts and completion by a second identity, one 5 MiB part. After each step: content, user metadata, MD5 ETag (put / copied objects), slice + Content-Range + Content-Length + 206 / 416, listing order and membership, multipart concatenation and metadata, refusal of the foreign identity, absence of deleted things. Held on the histories observed; the evidence counts steps and the (operation, prior state, range class) cells reached.",
+    "Trusted: the in-memory model (60 lines), aws-sdk-s3 as client. CopyObject = S3's default COPY metadata directive. States the statement does not pin (an upload that is not completable but was accepted; suffix range on an empty object) are marked unknown and not judged until rewritten.",
+    "DESIGN.md 3/C18",
+)
